@@ -248,7 +248,6 @@ func runC14(p *Prog, l *Ledger) {
 			continue
 		}
 		key := p.Key(f)
-		var defCall *ssa.Call
 		var optCalls []*ssa.Call
 		allInstrs(f, func(ins ssa.Instruction) {
 			call, ok := ins.(*ssa.Call)
@@ -256,9 +255,6 @@ func runC14(p *Prog, l *Ledger) {
 				return
 			}
 			c := p.CallOf(call)
-			if c.Static != nil && p.InPkg(c.Static, "grpc") && strings.Contains(strings.ToLower(c.Static.Name()), "defaults") {
-				defCall = call
-			}
 			if c.Name == "dynamic" && len(c.Args) == 1 {
 				// fn(cfg) where fn is an element of the variadic options parameter
 				if u, ok := c.FnVal.(*ssa.UnOp); ok {
@@ -270,20 +266,67 @@ func runC14(p *Prog, l *Ledger) {
 				}
 			}
 		})
-		if defCall == nil || len(optCalls) == 0 {
-			l.Bad("O6", key, p.FuncPos(f), fmt.Sprintf("interceptor constructor must apply defaults then options (defaults call found: %v, option calls: %d)", defCall != nil, len(optCalls)))
+		if len(optCalls) == 0 {
+			l.Bad("O6", key, p.FuncPos(f), "interceptor constructor must apply defaults then options (no call applying the user options to a config found)")
+			continue
+		}
+		// initialisers of the same config object: stores into its fields in the constructor, and calls of module functions
+		// that are handed the config and write its fields (a defaults helper). Each must run strictly before every option.
+		cfgAP := AccessPath(optCalls[0].Call.Args[0])
+		cfgT := derefNamed(optCalls[0].Call.Args[0].Type())
+		var inits []ssa.Instruction
+		allInstrs(f, func(ins ssa.Instruction) {
+			switch x := ins.(type) {
+			case *ssa.Store:
+				if fa, ok := x.Addr.(*ssa.FieldAddr); ok {
+					if ap := AccessPath(fa.X); ap.Root == cfgAP.Root && len(ap.Sel) == len(cfgAP.Sel) {
+						inits = append(inits, ins)
+					}
+				}
+			case *ssa.Call:
+				c := p.CallOf(x)
+				if c.Static == nil || !p.InModule(c.Static) || c.Static.Blocks == nil {
+					return
+				}
+				takes := false
+				for _, a := range x.Call.Args {
+					if ap := AccessPath(a); ap.Root == cfgAP.Root && ap.String() == cfgAP.String() {
+						takes = true
+					}
+				}
+				if !takes {
+					return
+				}
+				for _, a := range p.Accesses(c.Static) {
+					if a.Write && cfgT != nil && a.Field.Type != nil && types.Identical(a.Field.Type, cfgT) {
+						inits = append(inits, ins)
+						return
+					}
+				}
+			}
+		})
+		if len(inits) == 0 {
+			l.Bad("O6", key, p.FuncPos(f), "interceptor constructor must apply defaults then options (nothing initialises the config before the options are applied)")
 			continue
 		}
 		okDom := true
+		var late ssa.Instruction
 		for _, oc := range optCalls {
-			if !(defCall.Block().Dominates(oc.Block()) && defCall.Block() != oc.Block()) {
+			if AccessPath(oc.Call.Args[0]).String() != cfgAP.String() {
 				okDom = false
 			}
-			if AccessPath(oc.Call.Args[0]).String() != AccessPath(defCall.Call.Args[0]).String() {
-				okDom = false
+			for _, in := range inits {
+				if !(in.Block().Dominates(oc.Block()) && in.Block() != oc.Block()) {
+					okDom = false
+					late = in
+				}
 			}
 		}
-		l.Check(okDom, "O6", key, p.At(defCall), "defaults(cfg) dominates the loop applying the user options to the same cfg",
+		at := p.At(inits[0])
+		if late != nil {
+			at = p.At(late)
+		}
+		l.Check(okDom, "O6", key, at, fmt.Sprintf("%d initialiser(s) of the config (defaults) dominate the loop applying the user options to the same config", len(inits)),
 			"user options can be overwritten by defaults (defaults not applied strictly before the option loop)")
 	}
 	seenField := map[string]bool{}
